@@ -1,15 +1,19 @@
-"""Static per-property metadata (kept free of tenpy imports: the orchestrator reads it)."""
+"""Per-property metadata, read from checks/cXX.json (no tenpy import: the orchestrator reads it).
 
-# configs: list of (label, config, optimize) ; label is passed to check.units(tier, seed, label)
-CY = ('CY', 'CY', None)
-PYC = ('PY', 'PY', None)
+checks/cXX.json keys:
+  level      : evidence level (exploration | fault_enumeration | model_checking)
+  configs    : {"quick": [[label, "CY"|"PY", optimize-level-or-null], ...], "thorough": [...]}
+  finalize   : optional bool; if true, checks/cXX_finalize.py:finalize(by_label, tier, seed) is called
+  rule, assumptions, technique, level_text, level_note, engine, design_ref : texts for evidence / MANIFEST
+"""
+import glob
+import json
+import os
 
+HERE = os.path.dirname(os.path.dirname(os.path.abspath(__file__)))
 REGISTRY = {}
-
-
-def reg(pid, level, quick, thorough, finalize=False):
-    REGISTRY[pid] = dict(level=level, configs={'quick': quick, 'thorough': thorough}, finalize=finalize)
-
-
-reg('C15', 'exploration', [CY], [CY])
-reg('C20', 'model_checking', [CY], [CY])
+for _f in sorted(glob.glob(os.path.join(HERE, 'checks', 'c[0-9][0-9].json'))):
+    _m = json.load(open(_f))
+    _pid = os.path.basename(_f)[:-5].upper()
+    _m['configs'] = {t: [tuple(c) for c in cs] for t, cs in _m['configs'].items()}
+    REGISTRY[_pid] = _m
